@@ -8,9 +8,9 @@
    the seven specification bits of Model/CfgMerge.v for "E before, R after, R2 after running it again".
    `presets`, `linter_sections`, the template, markers, separators, defaults and validators are regenerated
    from /repo on every run (Gen/CfgToolGen.v). *)
-From TL Require Import Lib.Base Lib.GenTypes Model.CfgTypes Gen.CfgToolGen Model.CfgMerge Model.CfgCli Model.CfgLoc
+From TL Require Import Lib.Base Lib.GenTypes Model.CfgTypes Gen.CfgToolGen Model.CfgMerge Model.CfgCli Model.CfgLoc Model.CfgPath
      Proofs.CfgLines Proofs.CfgMergeMain Proofs.CfgMergeText Proofs.CfgMergeSpec Proofs.CfgInitMain Proofs.CfgCliProofs Proofs.CfgConvert
-     Proofs.CfgLocProofs.
+     Proofs.CfgLocProofs Proofs.CfgPathProofs.
 From Coq Require Import ZArith.
 
 (* 1. init-config without --force, every preset, every existing file of the subset, every quirk vector with the two
@@ -199,6 +199,40 @@ Theorem C20_single_file_is_one_location : forall q f c,
   lstep q [lf f] c = Build_lobs (o_rc o) (o_out o) [lf (o_file o)].
 Proof. exact lstep_single. Qed.
 Print Assumptions C20_single_file_is_one_location.
+
+(* 8. --config FILE with ANY suffix (Model/CfgPath.v): the loader accepts the lower-cased suffix, the writer the suffix as written
+      (extension lists read from the source).  A suffix the writer accepts is accepted by the loader, and then the machine is the
+      single-file machine of theorems 4-6; with every other suffix (.YAML, .JSON, .toml, none ...) no command ever changes the
+      file and no `config set` exits 0; for every suffix a set that does not exit 0 leaves the file, and every history meets the
+      trace specification. *)
+Theorem C20_writable_suffix_is_single_file_machine : forall q suf f c,
+  suffix_writable suf = true -> suffix_loadable suf = true /\ pstep q suf f c = step q true f c.
+Proof. intros q suf f c H. exact (conj (writable_loadable suf H) (pstep_is_step q suf f c H)). Qed.
+Print Assumptions C20_writable_suffix_is_single_file_machine.
+
+Theorem C20_unwritable_suffix_never_writes : forall q suf f c,
+  suffix_writable suf = false -> o_file (pstep q suf f c) = f.
+Proof. exact pstep_unwritable_keeps_file. Qed.
+Print Assumptions C20_unwritable_suffix_never_writes.
+
+Theorem C20_any_suffix_rejected_set_leaves_file : forall q suf f k t,
+  (o_rc (pstep q suf f (CSet k t)) <> 0 -> o_file (pstep q suf f (CSet k t)) = f) /\
+  (o_rc (pstep q suf f (CSet k t)) = 0 -> suffix_writable suf = true).
+Proof. intros q suf f k t. exact (conj (pstep_rejected_set_leaves_file q suf f k t) (pstep_accepted_set_needs_writable q suf f k t)). Qed.
+Print Assumptions C20_any_suffix_rejected_set_leaves_file.
+
+Theorem C20_any_suffix_history : forall q suf f cs,
+  forallb (fun b => b) (spec_trace [] f cs (prun q suf f cs)) = true.
+Proof. exact phistory. Qed.
+Print Assumptions C20_any_suffix_history.
+
+Example C20_suffix_nonvacuous :
+  map suffix_writable [".yaml"; ".yml"; ".json"; ".YAML"; ".JSON"; ".toml"; ""] = [true; true; true; false; false; false; false] /\
+  map suffix_loadable [".yaml"; ".yml"; ".json"; ".YAML"; ".JSON"; ".toml"; ""] = [true; true; true; true; true; false; false] /\
+  map o_rc (prun ideal ".YAML" (Some [("greeting", VStr "Yo")]) [CGet "greeting"; CSet "greeting" "Hi"; CSet "timeout" "0"; CReset]) = [0; 1; 1; 1] /\
+  map o_rc (prun ideal ".toml" (Some []) [CGet "greeting"; CSet "greeting" "Hi"]) = [2; 2] /\
+  map o_rc (prun ideal ".toml" None [CGet "greeting"; CSet "greeting" "Hi"]) = [0; 1].
+Proof. vm_compute. repeat split; reflexivity. Qed.
 
 (* non-vacuity: ./config.yaml invalid (skipped), ./config.json unreadable (skipped), the user-level YAML file valid: the greeting
    comes from the third location; the accepted set rewrites ./config.yaml (the skipped invalid file) with the merged configuration,
